@@ -1,10 +1,28 @@
 """Per-property leg table used by ./check (kept apart so MANIFEST generation can import it)."""
 
 
-def legs_with_mock(run, qshards, tshards):
+def fuzz_legs(seconds):
+    # native coverage-guided fuzzing, thorough tier only (cannot be pinned to a seed)
+    return [{"pkg": "props", "run": n, "fuzz": n, "fuzztime": seconds, "fuzzpar": 4, "timeout": seconds + 600, "replay_pkg": False}
+            for n in ("^FuzzCert$", "^FuzzCRL$", "^FuzzOCSP$", "^FuzzGen$")]
+
+
+def legs_with_mock(run, qshards, tshards, fuzz=False):
     def f(tier):
-        return [{"pkg": "props", "run": run, "shards": qshards if tier == "quick" else tshards},
+        legs = [{"pkg": "props", "run": run, "shards": qshards if tier == "quick" else tshards},
                 {"pkg": "mockreg", "run": "^TestMock$", "shards": 4 if tier == "quick" else 16}]
+        if fuzz and tier == "thorough":
+            legs += fuzz_legs(120)
+        return legs
+    return f
+
+
+def legs_fuzz(run, qshards, tshards):
+    def f(tier):
+        legs = [{"pkg": "props", "run": run, "shards": qshards if tier == "quick" else tshards}]
+        if tier == "thorough":
+            legs += fuzz_legs(150)
+        return legs
     return f
 
 
@@ -23,7 +41,7 @@ COMMON_ASSUME = [
 
 CHECKS = {
     "C01": {
-        "legs": legs_with_mock("^TestC01$", 12, 16),
+        "legs": legs_with_mock("^TestC01$", 12, 16, fuzz=True),
         "rule": "rapid: object (cert 70% / CRL 20% / OCSP 10%: corpus, 0-4 DER-tree edits, openers re-date/re-scope, built CRLs/OCSP) x registry "
                 "(nil, global, Filter(generated), Filter of Filter) x configuration (none, empty, example, unrelated, well-typed, ill-typed); plus the whole "
                 "corpus under the default registry (enumerated). Oracle: result-set invariants. Non-trivial = parseable, >=1 result above pass, and bytes edited "
@@ -33,7 +51,7 @@ CHECKS = {
                                          "generated scripts make all 16 flag combinations and all 7 statuses occur"],
     },
     "C02": {
-        "legs": legs_simple("props", "^TestC02$", 14, 16),
+        "legs": legs_fuzz("^TestC02$", 14, 16),
         "rule": "corpus + single-leaf-edit sweep (corpus object x leaf x ~190 deterministic edits; strided 1/97 sample in quick, complete in thorough) + rapid multi-edit / "
                 "crossover / opener / built objects, empty configuration, full registry. Oracle: no recovered-panic result, no escaping panic, reference lifecycle "
                 "body does not panic, fatal only as the body's own verdict. Non-trivial = parseable, differs from every corpus file, >=1 lint body executed; distinct by hash(DER).",
